@@ -65,11 +65,24 @@ class World:
     # ---- values in the requested form
     def val(self, table, i, which):
         v = table[i]
-        if self.form == "array" or (self.form == "mixed" and which in ("e", "spin")):
+        if self.form in ("array", "inplace") or (self.form == "mixed" and which in ("e", "spin")):
             if i == 0 and which != "spin":
                 return np.array([v, v, v])          # id 0 is the (scalar) configuration value, whatever its shape
             return np.array([v, v * 1.01, v * 0.97])
         return v
+
+    def buf(self, name, value):
+        """in-place form: the caller keeps ONE array per keyword, overwrites it and hands the same object back"""
+        if self.form != "inplace":
+            return value
+        b = getattr(self, "_bufs", None)
+        if b is None:
+            b = self._bufs = {}
+        if name not in b:
+            b[name] = np.array(value, dtype=float, copy=True)
+        else:
+            b[name][:] = value
+        return b[name]
 
     def conv(self, kind, n):
         from TidalPy.utilities.conversions import rads2days
@@ -104,31 +117,33 @@ class World:
                 kw["eccentricity"] = self.val(self.e_vals, ec, "e")
             if orv != NOT_GIVEN:
                 kw.update(self.orb_arg(o, w, ork, orv))
-            w.set_state(**kw)
+            w.set_state(**{k_: self.buf(k_, v_) for k_, v_ in kw.items()})
         elif act == "WorldSetSpin":
             sp, spk = p
             (k, v), = self.spin_arg(spk, sp).items()
+            v = self.buf(k, v)
             if (sp + (spk == "p")) % 2 == 0:
                 setattr(w, k, v)                       # property setter
             else:
                 getattr(w, "set_" + k)(v)              # explicit setter
         elif act == "WorldSetObliquity":
             ob, = p
-            v = self.val(self.obl_vals, ob, "obl")
+            v = self.buf("obliquity", self.val(self.obl_vals, ob, "obl"))
             if ob % 2 == 0:
                 w.obliquity = v
             else:
                 w.set_obliquity(v)
         elif act in ("OSetState", "OrbitSetState") and p[0] != NOT_GIVEN and p[1] != NOT_GIVEN:
             ec, orv, ork = p
-            o.set_state(w, eccentricity=self.val(self.e_vals, ec, "e"), **self.orb_arg(o, w, ork, orv))
+            o.set_state(w, eccentricity=self.buf("eccentricity", self.val(self.e_vals, ec, "e")),
+                        **{k_: self.buf(k_, v_) for k_, v_ in self.orb_arg(o, w, ork, orv).items()})
         elif act == "OrbitSetState" and p[1] == NOT_GIVEN:
             self.perform(w, o, "OrbitSetEcc", [p[0]])
         elif act == "OrbitSetState":
             self.perform(w, o, "OrbitSetOrb", [p[1], p[2]])
         elif act == "OrbitSetEcc":
             ec, = p
-            v = self.val(self.e_vals, ec, "e")
+            v = self.buf("eccentricity", self.val(self.e_vals, ec, "e"))
             if ec == 1:
                 w.eccentricity = v
             elif ec == 2:
@@ -138,12 +153,24 @@ class World:
         elif act == "OrbitSetOrb":
             orv, ork = p
             (k, v), = self.orb_arg(o, w, ork, orv).items()
+            v = self.buf(k, v)
             if orv == 1:
                 setattr(w, k, v)
             elif orv == 2:
                 o.set_state(w, **{k: v})
             else:
                 getattr(o, "set_" + k)(w, v)
+        elif act == "WorldSetSpinDeferred":
+            sp, spk = p
+            (k, v), = self.spin_arg(spk, sp).items()
+            getattr(w, "set_" + k)(self.buf(k, v), call_updates=False)
+        elif act == "WorldSetObliquityDeferred":
+            ob, = p
+            w.set_obliquity(self.buf("obliquity", self.val(self.obl_vals, ob, "obl")), call_updates=False)
+        elif act == "SetQDeferred":
+            nq, = p
+            name = "fixed_dt" if self.ctl else "fixed_q"
+            (getattr(w, "set_" + name) if nq % 2 else getattr(w.tides, "set_" + name))(self.q_vals[nq], run_updates=False)
         elif act == "SetQ":
             nq, path = p
             v = self.q_vals[nq]
@@ -286,8 +313,10 @@ def replay_behaviour(W, beh, sabotage=False):
                                     "tb": traceback.format_exc()[-800:]})
             out.append(rec)
             break
-        exp = W.expected(st)
-        for key in DERIVED + INPUTS:
+        pending = len(st) > 5 and bool(st[5])
+        exp = W.expected(st[:5])
+        # while a deferred (call_updates=False) change is outstanding only the stored inputs are comparable
+        for key in (INPUTS if pending else DERIVED + INPUTS):
             if not close(got[key], exp[key]):
                 # which fresh state (if any) does the stale value belong to?
                 origin = None
@@ -299,7 +328,7 @@ def replay_behaviour(W, beh, sabotage=False):
                                         "got": jsonable(got[key]), "fresh": jsonable(exp[key]),
                                         "value_belongs_to_state": origin})
         fn = exp.get("_functional")
-        if fn is not None:
+        if fn is not None and not pending:
             for key, v in fn.items():
                 if not close(exp[key], v, 1e-10):
                     rec["mismatch"].append({"what": key, "kind": "functional_api", "got": jsonable(exp[key]),
@@ -318,30 +347,33 @@ def replay_behaviour(W, beh, sabotage=False):
 
 def main():
     job = json.load(open(sys.argv[1]))
-    W = World(job["config"], job["form"])
-    res = []
-    for bi, beh in enumerate(job["behaviours"]):
-        steps = replay_behaviour(W, beh, sabotage=job.get("sabotage", False))
-        bad = [s for s in steps if s["mismatch"]]
-        res.append({"behaviour": bi, "steps": len(steps), "bad": bad[:1]})
-    # scalar/array agreement: element 0 of the array table equals the scalar table
-    sa = []
-    if job["form"] != "scalar":
-        Ws = World(job["config"], "scalar")
-        for st, d in list(W.table.items())[:200]:
-            ds = Ws.expected(list(st))
-            for key in DERIVED:
-                a, s = d[key], ds[key]
-                if a is None or s is None:
-                    if (a is None) != (s is None):
-                        sa.append({"state": list(st), "what": key, "array": jsonable(a), "scalar": jsonable(s)})
-                    continue
-                a0 = np.asarray(a).ravel()[0]
-                if not close(a0, s, 1e-11):
-                    sa.append({"state": list(st), "what": key, "array0": jsonable(a0), "scalar": jsonable(s)})
-    json.dump({"results": res, "table_states": len(W.table), "scalar_array_mismatch": sa[:20],
-               "values": {"e": W.e_vals, "obl": W.obl_vals, "n": W.n_vals, "spin": W.s_vals, "q": W.q_vals}},
-              open(sys.argv[1] + ".out.json", "w"))
+    groups = job.get("groups") or [{"form": job["form"], "behaviours": job["behaviours"], "sabotage": job.get("sabotage", False)}]
+    out_groups = []
+    for g in groups:
+        W = World(job["config"], g["form"])
+        res = []
+        for bi, beh in enumerate(g["behaviours"]):
+            steps = replay_behaviour(W, beh, sabotage=g.get("sabotage", False))
+            bad = [s for s in steps if s["mismatch"]]
+            res.append({"behaviour": bi, "steps": len(steps), "bad": bad[:1]})
+        # scalar/array agreement: element 0 of the array table equals the scalar table
+        sa = []
+        if g["form"] != "scalar":
+            Ws = World(job["config"], "scalar")
+            for st, d in list(W.table.items())[:120]:
+                ds = Ws.expected(list(st))
+                for key in DERIVED:
+                    a, sc = d[key], ds[key]
+                    if a is None or sc is None:
+                        if (a is None) != (sc is None):
+                            sa.append({"state": list(st), "what": key, "array": jsonable(a), "scalar": jsonable(sc)})
+                        continue
+                    a0 = np.asarray(a).ravel()[0]
+                    if not close(a0, sc, 1e-11):
+                        sa.append({"state": list(st), "what": key, "array0": jsonable(a0), "scalar": jsonable(sc)})
+        out_groups.append({"form": g["form"], "results": res, "table_states": len(W.table), "scalar_array_mismatch": sa[:20]})
+    json.dump({"groups": out_groups, "results": out_groups[0]["results"], "scalar_array_mismatch": out_groups[0]["scalar_array_mismatch"],
+               "table_states": out_groups[0]["table_states"]}, open(sys.argv[1] + ".out.json", "w"))
 
 
 if __name__ == "__main__":
